@@ -8,8 +8,10 @@
   `weight_strict_mono`, `shadow_strictly_dominates`).  That `ndint_compress(method="shadow")` computes
   `shadowSpec` (1-D, 2-D on both axes, 3-D batches) is tied by the correspondence: the driver answers
   both with the model that mirrors the code's plumbing (`shadow2d`) and with `shadowSpec`, and both must
-  equal the implementation's output.  prio / rank / first / last / min / max are tied by the
-  correspondence and judged by the oracle, not proved.
+  equal the implementation's output.  (3) About `prio` in key form (`prioSpec`, `rankOf`): equal keys equal
+  ranks, strictly smaller key strictly smaller rank, dense (rank = 1 + number of distinct keys below,
+  at most the number of distinct keys), tied the same way; `rank` is compared as `ranking (prioSpec m)`.
+  first / last / min / max are tied by the correspondence and judged by the oracle, not proved.
 -/
 import Puan.Model.Prio
 import Puan.Lemmas.Shadow
@@ -181,8 +183,53 @@ theorem shadow_strictly_dominates (ks : List Key) (k : Key) (hk : k ∈ ks) :
 
 end shadow
 
+/-! ### `prio` by keys: an order-preserving dense ranking of the same ordering -/
+
+section prio
+open Prio
+
+/-- the rank of a key: 1 + the number of distinct keys strictly below it -/
+def rankOf (ks : List Key) (k : Key) : Int := 1 + (levOf (dedupK ks) k : Int)
+
+/-- equal priorities get equal ranks (the rank is a function of the key), ranks start at 1, … -/
+theorem rank_pos (ks : List Key) (k : Key) : 1 ≤ rankOf ks k := by unfold rankOf; omega
+
+/-- … a strictly smaller key gets a strictly smaller rank (order preserved: later rows above earlier rows, then magnitude), … -/
+theorem rank_strict_mono (ks : List Key) (k' k : Key) (hk' : k' ∈ ks) (h : Key.lt k' k) : rankOf ks k' < rankOf ks k := by
+  unfold rankOf
+  have := levOf_lt (dedupK ks) k' k ((mem_dedupK ks k').2 hk') h
+  omega
+
+/-- … and the ranking is dense: the rank of a key is exactly one more than the number of distinct keys below it, so the
+    ranks that occur are 1, 2, …, (number of distinct keys) without gaps -/
+theorem rank_dense (ks : List Key) (k : Key) :
+    rankOf ks k = 1 + (((dedupK ks).filter (fun k' => decide (Key.lt k' k))).length : Int) ∧ (dedupK ks).Nodup ∧
+    (∀ x, x ∈ dedupK ks ↔ x ∈ ks) :=
+  ⟨rfl, nodup_dedupK ks, mem_dedupK ks⟩
+
+theorem rank_le_distinct (ks : List Key) (k : Key) (hk : k ∈ ks) : rankOf ks k ≤ (dedupK ks).length := by
+  unfold rankOf levOf
+  have hmem : k ∈ dedupK ks := (mem_dedupK ks k).2 hk
+  -- k itself is not below k, so the filter misses at least one element
+  have : ((dedupK ks).filter (fun k' => decide (Key.lt k' k))).length < (dedupK ks).length := by
+    have h1 := filter_length_lt (fun k' => decide (Key.lt k' k)) (fun _ => true) (dedupK ks) (by intros; rfl)
+      ⟨k, hmem, rfl, by simpa using Key.not_lt_self k⟩
+    have h2 : (dedupK ks).filter (fun _ => true) = dedupK ks := by simp
+    rw [h2] at h1; exact h1
+  omega
+
+/-- `prioSpec`, entry by entry: 0 for a column without a key, otherwise sign × rank of its key -/
+theorem prioSpec_eq (m : Mat) :
+    prioSpec m = ((List.range (ncols m)).map (col m)).map (fun c =>
+      match keyOf c with
+      | none => 0
+      | some k => Prio.sgnOf c * rankOf (((List.range (ncols m)).map (col m)).filterMap keyOf) k) := rfl
+
+end prio
+
 /-- non-vacuity of the key form: an empty level between two used ones (the witness of seeded change C13-a) -/
 example : shadowSpec [[1, 2, 0], [0, 0, 0], [0, 0, 2]] = [1, 2, 4] ∧
-    shadowSpec [[1, -2, 3, 0], [0, 5, -5, 0], [2, 0, 0, 0]] = [3, 1, -1, 0] := by decide
+    shadowSpec [[1, -2, 3, 0], [0, 5, -5, 0], [2, 0, 0, 0]] = [3, 1, -1, 0] ∧
+    prioSpec [[1, -2, 3, 0], [0, 5, -5, 0], [2, 0, 0, 0]] = [2, 1, -1, 0] := by decide
 
 end Puan.C13
